@@ -80,6 +80,20 @@ def ladder(ctx, fam, ns, fwd, bwd):
             if float(np.max(np.abs(spec_f - code_f))) > 1e-10 * float(np.max(np.abs(spec_f))):
                 ctx.violation('ForwardTransform', {'family': 'convergence', 'action': 'to_fourier', 'case': name, 'n': n,
                                                    'detail': 'code differs from the specified discrete transform'})
+        # the statement holds for functions of EVERY magnitude: A f is approximated as well as f, relative to its own size
+        for A in (1e-9, 1e-13, 1e7):
+            small = np.asarray(d.to_fourier(A * fr), dtype=float)
+            if float(np.max(np.abs(small - A * code_f))) > 1e-10 * A * float(np.max(np.abs(code_f))):
+                ctx.violation('ForwardTransform.amplitude', {'family': 'convergence', 'action': 'to_fourier', 'case': name, 'n': n, 'amplitude': A,
+                                                             'detail': 'to_fourier(A f) differs from A to_fourier(f): the error relative to the size of the function does not vanish under refinement'})
+                break
+            if smooth:
+                back = np.asarray(d.to_real(A * Fk), dtype=float)
+                ref = np.asarray(d.to_real(Fk), dtype=float)
+                if float(np.max(np.abs(back - A * ref))) > 1e-10 * A * float(np.max(np.abs(ref))):
+                    ctx.violation('BackwardTransform.amplitude', {'family': 'convergence', 'action': 'to_real', 'case': name, 'n': n, 'amplitude': A,
+                                                                  'detail': 'to_real(A F) differs from A to_real(F)'})
+                    break
         errs_code_f.append(float(np.max(np.abs(code_f[jj] - Fk[jj]))))
         errs_low.append(abs(float(code_f[0]) - float(Fk[0])))
         if smooth:
